@@ -1,7 +1,7 @@
 (* C17 — meta table: exactly the registered types, once each, with the right vtable.
    Statements only; proofs in MetaProps.v.  A vtable function is represented by the concrete
    type it was made for; [bad] = types whose CastFrom implementation changes the address. *)
-From Shred Require Import Base PlanObs PlanLemmas World WorldProps WorldMap Meta MetaProps Plan MetaIterMut.
+From Shred Require Import Base PlanObs PlanLemmas World WorldProps WorldMap Meta MetaProps Plan MetaIterMut MetaIterAll.
 
 (* after ANY sequence of register calls (with repeats): no panic; the three tables stay aligned
    (slot i holds the vtable of tys[i], index of tys[i] is i, no type twice), and tys lists the
@@ -47,6 +47,16 @@ Theorem C17_exclusive_iteration_yields_registered_present_types_in_order :
                            then option_map (fun v => (fst v, snd v + 1)) (mget w k) else mget w k).
 Proof. exact iter_mut_spec. Qed.
 Print Assumptions C17_exclusive_iteration_yields_registered_present_types_in_order.
+
+(* whatever is borrowed: a pass of iter or iter_mut that completes has listed EVERY registered type that is present,
+   once, in first-registration order — a present resource whose borrow conflicts ends the pass in a panic, it is never
+   skipped and never handed out as an aliasing guard *)
+Theorem C17_completed_iteration_skips_nothing :
+  forall bad excl regs t w w' gs l, reg_all empty_table regs = Ok t ->
+  iter_walk bad excl (m_fns t) (m_tys t) w [] [] = (w', gs, inl l) ->
+  map fst3 l = filter (presentb w) (dedup_first [] regs).
+Proof. exact completed_iteration_skips_nothing. Qed.
+Print Assumptions C17_completed_iteration_skips_nothing.
 
 Example C17_example :
   let ops := [MReg 2; MReg 1; MReg 2; MReg 3; MReg 1; MIns 1 (1, 10)%N; MIns 3 (2, 30)%N; MIns 2 (3, 20)%N; MRem 3;
